@@ -118,6 +118,14 @@ def replace_typevars(ty: t.Any,
         # struct type literal
         return type(ty)({k: replace_typevars(v, replacements) for (k, v) in ty.items()})  # type: ignore
 
+    if isinstance(ty, type) and '__pane_boundvars__' in vars(ty):
+        # parametrised pane dataclass (e.g. `Inner[T]`): re-parametrise its origin
+        bound = tuple(vars(ty)['__pane_boundvars__'].values())
+        new_bound = tuple(replace_typevars(arg, replacements) for arg in bound)
+        if all(new is old for (new, old) in zip(new_bound, bound)):
+            return ty
+        return vars(ty)['__origin__'][new_bound]
+
     base = t.get_origin(ty) or ty
     args = t.get_args(ty)
 
